@@ -203,6 +203,20 @@ func c13Case(w *rt.W, s uint64) {
 		rcall{"DefaultFormatter(\"n 1 000\", FormatPretty)", "n 1 000" + pretty, bufCall("n 1 000", sp%11, size.FormatPretty)},
 		rcall{"Formatter variable (FormatPretty)", pretty, func() string { o, _ := size.Formatter(nil, sz, size.FormatPretty); return string(o) }},
 	)
+	// refused parses in between (what a refused input leaves behind must not leak into the next rendering)
+	poisons := []string{"null", "true", "false", "12 kiB", `{"value":5`, "[]", `{"value":null,"unit":"B"}`, "99999999999999999999999", `"45 Kb"`, "", "{}", " null "}
+	for k := uint64(0); k < 2; k++ {
+		p := poisons[(s+k*5)%uint64(len(poisons))]
+		calls = append(calls, rcall{"refused parse of " + p, "refused", func() string {
+			var z size.Size
+			_, e1 := size.DefaultParser(p, size.DefaultRule)
+			e2 := z.UnmarshalJSON([]byte(p))
+			if e1 == nil || (e2 == nil && strings.TrimSpace(p) != "null") {
+				return "accepted"
+			}
+			return "refused"
+		}})
+	}
 	h := rt.HashU(s, 13)
 	for i := len(calls) - 1; i > 0; i-- {
 		j := int(h % uint64(i+1))
